@@ -415,6 +415,9 @@ func RunEdges(args []string) int {
 				fmt.Fprintf(os.Stderr, "cannot parse edge: %v: %.300s\n", jerr, s)
 				return 2
 			}
+			if sum.Failures >= 25 {
+				continue // enough evidence; skip the remaining edges
+			}
 			if !do(e) {
 				pending = append(pending, e)
 			}
